@@ -333,3 +333,17 @@ func (s *sys) Check() []bfs.Viol {
 	}
 	return viols
 }
+
+// ---- exported helpers for other checks (C18) ----
+
+// EthHeader builds a rule-abiding header (chain id 4 rules) on top of parent (nil = genesis at height 100) with the given state root.
+func EthHeader(parent *ethtypes.Header, name string, root []byte) *ethtypes.Header {
+	h := gethHeader(parent, name, "", "")
+	if root != nil {
+		h.Root = common.BytesToHash(root)
+	}
+	return h
+}
+
+// ToProto converts to the client's header type.
+func ToProto(h *ethtypes.Header) *ethclient.Header { return toProto(h) }
